@@ -9,6 +9,7 @@ import abbr_gen as g
 import format_util as fu
 import c12_opts as co
 import c12_classes as cc
+import c12_values as cv
 from markup_util import run_cases, canon_cfg, enc_config, decode_res, NotModelled, mentions_lorem
 from common import enc_str
 
@@ -168,7 +169,12 @@ def make_group(rng, kind_bias=None, variant=None):
     markup.attributes / markup.valuePrefix maps (c12_classes, class 4);
     variant 'empty': empty values written explicitly (`{}`, `p{}`, `[title=""]`) in every position and abbreviations
     cut short as an as-you-type expansion sees them (c12_classes, class 6); one of the two cosmetic runs has
-    formatting off, the other on, in most draws."""
+    formatting off, the other on, in most draws;
+    variant 'values': option values at the edges of their documented type and range (c12_values, class 7) on
+    abbreviations in which self-closing elements are frequent: the self-closing pair compares values outside the three
+    documented words (None, '', other spelling / case, unknown word, other type) with a documented word or with each
+    other; the switches of the cosmetic, depth and comment runs are spelled 1 / 0 / None / '', output.inlineBreak
+    takes 0 / None / False / True / 1000 / -1."""
     level = 'depth' if rng.random() < (0.5 if variant in ('case', 'lines', 'empty') else 0.35) else 'c12'
     listed = False
     cased_names = None
@@ -181,6 +187,8 @@ def make_group(rng, kind_bias=None, variant=None):
         abbr = g.render(cc.rand_shorthand_stmt(rng, level))
     elif variant == 'empty':
         abbr = cc.rand_unfinished_stmt_abbr(rng, level)
+    elif variant == 'values':
+        abbr = cv.rand_selfclosing_abbr(rng, level)
     elif variant == 'case':
         st = cc.rand_cased_stmt(rng, level)
         abbr = g.render(st)
@@ -205,6 +213,10 @@ def make_group(rng, kind_bias=None, variant=None):
     if variant == 'empty' and rng.random() < 0.7:
         # the pair the statement names first: format on / off
         k1['output.format'], k2['output.format'] = rng.choice([(True, False), (False, True)])
+    if variant == 'values':
+        k1, k2 = cv.edge_values(rng, k1), cv.edge_values(rng, k2)
+        if rng.random() < 0.3:
+            base['options']['output.selfClosingStyle'] = cv.rand_style(rng)     # not cosmetic: the same in every run
     cfgs = {'a': fu.with_options(base, k1), 'b': fu.with_options(base, k2)}
     checks = [('cosmetic', 'a', 'b')]
     if level == 'depth':
@@ -212,7 +224,7 @@ def make_group(rng, kind_bias=None, variant=None):
         # "no element exempted through output.formatSkip": the list is given explicitly, empty or naming only
         # elements the output does not contain
         skip = [] if rng.random() < 0.75 else rng.sample(co.ABSENT_NAMES, rng.randint(1, 2))
-        d['options'].update({'output.format': True, 'output.formatSkip': skip,
+        d['options'].update({'output.format': rng.choice(cv.TRUTHY) if variant == 'values' else True, 'output.formatSkip': skip,
                              'output.indent': rng.choice(['\t', '  ', '    ']),
                              'output.newline': rng.choice(['\n', '\r\n'])})
         if cased_names is not None:
@@ -225,7 +237,8 @@ def make_group(rng, kind_bias=None, variant=None):
                 d['options']['output.formatSkip'] = cc.near_miss_list(rng, cased_names)
         if rng.random() < 0.2:
             d['options']['output.formatForce'] = rng.choice([[], ['html'], ['p', 'body']])
-        if ('/' in abbr or listed) and co.in_force(d)['output.selfClosingStyle'] == 'html':
+        if ('/' in abbr or listed) and co.in_force(d)['output.selfClosingStyle'] not in ('xhtml', 'xml'):
+            # the indentation oracle reads self-closed tags by their mark
             d['options']['output.selfClosingStyle'] = rng.choice(['xhtml', 'xml'])
         if d['options'].get('comment.enabled'):
             d['options'].pop('comment.before', None)
@@ -239,12 +252,17 @@ def make_group(rng, kind_bias=None, variant=None):
         con['comment.trigger'] = rng.choice([[], [], ['id'], ['class'], ['title'], ['id', 'class', 'title'], ['data-v']])
         if rng.random() < 0.3:
             con['comment.before'], con['comment.after'] = rng.choice(fu.COMMENT_TEMPLATES + [('', '')])
+    if variant == 'values':
+        con['comment.enabled'] = rng.choice(cv.TRUTHY)
+        if rng.random() < 0.3:
+            con[rng.choice(['comment.trigger', 'comment.before', 'comment.after'])] = None       # "not set"
     on = fu.with_options(cfgs[src], con)
-    off = fu.with_options(on, {'comment.enabled': False})
-    if '<!--' not in abbr:      # a text that itself writes comment marks: the comment oracle cannot tell them apart
+    off = fu.with_options(on, {'comment.enabled': rng.choice(cv.FALSY) if variant == 'values' else False})
+    strings_ok = all(isinstance(co.in_force(on)[k], str) for k in ('output.newline', 'output.indent', 'output.baseIndent'))
+    if '<!--' not in abbr and strings_ok:      # a text that itself writes comment marks: the comment oracle cannot tell them apart
         cfgs['con'], cfgs['coff'] = on, off
         checks.append(('comments', 'con', 'coff'))
-    styles = rng.sample(['html', 'xhtml', 'xml'], 2)
+    styles = cv.rand_style_pair(rng) if variant == 'values' else rng.sample(['html', 'xhtml', 'xml'], 2)
     cfgs['s1'] = fu.with_options(cfgs[src], {'output.selfClosingStyle': styles[0]})
     cfgs['s2'] = fu.with_options(cfgs[src], {'output.selfClosingStyle': styles[1]})
     checks.append(('selfclose', 's1', 's2'))
@@ -491,6 +509,77 @@ def add_empty_value_groups(ctx, rng, groups):
     for _ in range(n):
         groups.append(make_group(rng, variant='empty'))
     ctx.cov['empty_value_groups'] = {'sweep': n_sw, 'typed_prefixes': n_pre, 'random': n}
+
+
+def add_option_value_groups(ctx, rng, groups):
+    """Class 7 of the input classes (harness/c12_values.py): option values at the edges of their documented type and
+    range.  Deterministic sweeps -- every value of output.selfClosingStyle outside the documented words x every
+    abbreviation with self-closing elements x rotating syntaxes, against a documented word or another outside value
+    (self-closing oracle); every respelling of the switches and every inline-break edge against the documented
+    spelling (cosmetic oracle, plus the depth oracle when formatting is on); comment.enabled in every spelling of on x
+    every spelling of off (comment oracle) -- then random statements."""
+    quick = ctx.tier == 'quick'
+    n_sc = n_sw = n_co = 0
+    for abbr, syn, v, w in cv.selfclose_sweep(2 if quick else len(fu.HTML_SYNTAXES)):
+        s1 = {'syntax': syn, 'options': {'output.selfClosingStyle': v}}
+        s2 = {'syntax': syn, 'options': {'output.selfClosingStyle': w}}
+        if n_sc % 3 == 0:
+            for c in (s1, s2):
+                c['options'].update({'output.format': False} if n_sc % 2 else {'comment.enabled': True})
+        groups.append({'abbr': abbr, 'cfgs': {'s1': s1, 's2': s2}, 'checks': [('selfclose', 's1', 's2')], 'variant': 'values'})
+        n_sc += 1
+    for k, (abbr, oa, ob, opt, v) in enumerate(cv.switch_sweep()):
+        syn = fu.HTML_SYNTAXES[k % len(fu.HTML_SYNTAXES)]
+        base = {'syntax': syn, 'options': {'output.formatSkip': [], 'output.selfClosingStyle': 'xhtml'}}
+        a, b = fu.with_options(base, oa), fu.with_options(base, ob)
+        checks = [('cosmetic', 'a', 'b')]
+        if co.in_force(a)['output.format']:
+            checks.append(('depth', 'a', None))
+        groups.append({'abbr': abbr, 'cfgs': {'a': a, 'b': b}, 'checks': checks, 'variant': 'values'})
+        n_sw += 1
+    for k, (abbr, on, off) in enumerate(cv.comment_switch_sweep()):
+        syn = fu.HTML_SYNTAXES[k % len(fu.HTML_SYNTAXES)]
+        groups.append({'abbr': abbr, 'cfgs': {'con': {'syntax': syn, 'options': on}, 'coff': {'syntax': syn, 'options': off}},
+                       'checks': [('comments', 'con', 'coff')], 'variant': 'values'})
+        n_co += 1
+    n = 150 if quick else 2000
+    for _ in range(n):
+        groups.append(make_group(rng, variant='values'))
+    ctx.cov['option_value_groups'] = {'self_closing_style_sweep': n_sc, 'switch_and_number_sweep': n_sw,
+                                      'comment_switch_sweep': n_co, 'random': n}
+
+
+def cover_value_classes(ctx, kind, gr, cfg_a, cfg_b, ra):
+    """Evidence for class 7: which values outside the documented ones the checks ran with."""
+    if gr.get('variant') != 'values':
+        return
+    oa = cfg_a.get('options') or {}
+    ob = (cfg_b or {}).get('options') or {}
+    if kind == 'selfclose':
+        ca, cb = cv.style_class(oa.get('output.selfClosingStyle')), cv.style_class(ob.get('output.selfClosingStyle'))
+        what = 'documented-vs-documented' if ca == cb == 'documented' else \
+            'outside-vs-documented' if 'documented' in (ca, cb) else 'outside-vs-outside'
+        ctx.cover('C12:option-values-selfclose-' + what)
+        for c in (ca, cb):
+            if c != 'documented':
+                ctx.cover('C12:option-values-selfclose-style-' + c)
+        if ra[0] == 'ok' and cv.asks_for_self_closing(gr['abbr']):
+            ctx.cover('C12:option-values-selfclose-with-self-closing-element')
+            if what != 'documented-vs-documented':
+                ctx.cover('C12:option-values-selfclose-outside-style-with-self-closing-element')
+        return
+    for o in (oa, ob):
+        for k in cv.SWITCHES:
+            if k in o and not isinstance(o[k], bool):
+                ctx.cover('C12:option-values-%s-%s-%s' % (kind, k, cv.value_name(o[k])))
+        ib = o.get('output.inlineBreak', 3)
+        if 'output.inlineBreak' in o and (ib is None or isinstance(ib, bool) or ib < 0 or ib > 7):
+            ctx.cover('C12:option-values-%s-output.inlineBreak-%s' % (kind, cv.value_name(ib)))
+        for k in ('comment.trigger', 'comment.before', 'comment.after'):
+            if k in o and o[k] is None:
+                ctx.cover('C12:option-values-%s-%s-None' % (kind, k))
+    if kind != 'selfclose' and cv.style_class(co.in_force(cfg_a)['output.selfClosingStyle']) != 'documented':
+        ctx.cover('C12:option-values-%s-under-outside-self-closing-style' % kind)
 
 
 FIELD_IN_VALUE_RE = re.compile(r'\$\{\d+(?::[^{}]*)?\}')
@@ -846,6 +935,24 @@ def run(ctx):
         'holding only the indentation of an empty text node counts like any other line); plus random statements with '
         'empty values put in, half of them cut short (70% of the cuts after an opening delimiter / operator), 70% of '
         'their cosmetic pairs with format on vs off; compared with the model like every other group. '
+        'Option values at the edges of their type and range (class 7, harness/c12_values.py): output.selfClosingStyle '
+        'outside its three documented words -- None ("not set"), the empty string, other letter case (XML, Xhtml), other '
+        'spelling (a blank before / after, x-html), unknown words (none, sgml, html5), other types (False, True, 0, 1) -- '
+        'compared with a documented word or with another such value by the self-closing oracle (whatever the two values '
+        'are, the outputs differ in the ` /` or `/` before `>` only; which mark an undocumented word writes is not '
+        'judged): a sweep of 18 values x 14 abbreviations with self-closing elements (void snippet names, `/` marks on '
+        'leaves, on elements with text / children, xsl names) x 2 rotating syntaxes (all 6 in the thorough tier), a third '
+        'of them with format off or comments on; the switches output.format / output.formatLeafNode / comment.enabled '
+        'spelled 1 / 0 / None / \'\' and output.inlineBreak as 0 / None / False / True / 50 / 1000 / -1 against the '
+        'documented spelling (cosmetic oracle, depth oracle when formatting is on by a true value, comment oracle for '
+        'every on-spelling x off-spelling, comment.trigger / templates given as None); plus random statements in which '
+        'a third of the leaves carry `/` and a third of the names are void snippet names, all runs under respelled '
+        'switches / inline-break edges, 30% under an outside style as the shared base, the self-closing pair drawn '
+        'with at least one outside value in 75% of the draws.  String values go to the model like every other case; '
+        'values of another type (False, 0, 1, a negative inlineBreak) have no counterpart in the model\'s option '
+        'record and are judged by the oracles only (counted as C12:not-modelled).  NOT explored: None for '
+        'output.indent / output.newline / output.baseIndent (documented type string; switch '
+        'c12_values.STRING_OPTIONS_NONE, off) and for output.formatSkip / output.formatForce. '
         'Call sequences (class 5): ONE tree from emmet.markup.parse rendered by emmet.markup.stringify under 2-5 '
         'configurations that differ in cosmetic options only (abbreviations of every class above x random non-cosmetic '
         'base incl. user attribute maps; fixed part: shorthand sweep, xsl, snippets, fields, every option set in every '
@@ -922,6 +1029,7 @@ def run(ctx):
     add_line_separator_groups(ctx, rng, groups)
     add_shorthand_groups(ctx, rng, groups)
     add_empty_value_groups(ctx, rng, groups)
+    add_option_value_groups(ctx, rng, groups)
     cases = []
     index = {}
     for gi, gr in enumerate(groups):
@@ -940,6 +1048,7 @@ def run(ctx):
             ctx.cover('C12:check-' + kind)
             cover_option_classes(ctx, kind, gr, cfg_a)
             cover_new_classes(ctx, kind, gr, cfg_a, ra)
+            cover_value_classes(ctx, kind, gr, cfg_a, cfg_b, ra)
             if ra[0] == 'ok':
                 syn = cfg_a.get('syntax', 'html')
                 ctx.cover('C12:syntax-' + syn)
